@@ -9,6 +9,7 @@ SPEC = {
         'C38_flag_clear_implies_unlock_before',
         'C38_window_closed', 'C38_lock_survives_setpasswd', 'C38_concurrent_example',
         'C38_timeout_respected_seq', 'C38_unlocked_inside_timeout_seq', 'C38_timed_example',
+        'C38_no_secret_after_timeout', 'C38_refused_after_timeout', 'C38_secret_timed_example',
     ],
     'allowed_axioms': [],
     'shard': 40,
@@ -19,7 +20,12 @@ SPEC = {
             'wrong old, valid / invalid new), ProcDumpPrivkey, GetSeed, ProcSignRawTx, ProcImportPrivKey, ProcSendToAddress, CheckWalletStatus, '
             'IsWalletLocked, GetWalletStatus, GetPrivKeyByAddr, restart (new Wallet on the same DB); passwords from a table of 8 (4 valid). '
             'Streams: seq (one request at a time, 4-70 steps); timed (real timers of 1-2 s, immediate expiry by negative / overflowing timeouts, '
-            'observations >= 450 ms away from every deadline, planned clock kept within 200 ms or the case is generated again; 16 wallets in parallel); '
+            'observations >= 450 ms away from every deadline, planned clock kept within 200 ms or the case is generated again; 16 wallets in parallel; '
+            'the first round is a right-password unlock with Timeout 1 / 2; each case fixes a battery of secret-returning requests - ProcSignRawTx by address '
+            '(forms: single tx / Fee+NewToAddr+Expire / two-tx group Index 0 / group Index 1) and ProcDumpPrivkey for one or two accounts, GetSeed, '
+            'ProcSendToAddress, one status read - and asks the SAME battery for the SAME accounts after every unlock (window open), after every passage of '
+            'time (before / beyond the deadline), after every explicit lock, after every failed or successful re-unlock (failed ones ask for Timeout 2 / 3600 / 0) '
+            'and after every password change: the oracle flags any secret / signature returned once the last successful unlock has expired); '
             'gate-guarded (a request is held inside its critical section at a DB operation while lock-free requests run and one mutex-taking request is '
             'started and seen to wait; no status observer while a SetPasswd is held); gate-window (status observers inside SetPasswd holds); '
             'gate-window-witness (the deterministic schedule of former finding 1: wrong old password, fresh process, held at the password-hash read, '
@@ -28,7 +34,7 @@ SPEC = {
             'thorough: one goroutine loops ProcWalletSetPasswd with a wrong old password on an unlocked wallet, the other calls ProcWalletLock and then '
             'CheckWalletStatus; a status "unlocked" after the lock is a violation: former finding 2); dict (the password table). In every stream every '
             'spec failure is a violation (no open finding). '
-            'non-trivial: seq = some request returned a stored secret; timed = an observation after an expired timeout; gate-guarded = a mutex-taking '
+            'non-trivial: seq = some request returned a stored secret; timed = a battery asked beyond a deadline after a battery request had handed out a secret inside that window; gate-guarded = a mutex-taking '
             'request was seen waiting; gate-window / witness = a status observer ran while a SetPasswd was held; spin = the observer completed a read '
             'during a SetPasswd on a locked wallet; hammer = at least one lock trial ran. distinct = distinct Gallina case terms',
     'trusted_base': [
@@ -40,7 +46,9 @@ SPEC = {
         'passwords are byte strings; the salted SHA-256 password hash and the encryption of seed and keys are modelled by the password they were '
         'made with (C37 covers the cryptography); isValidPassWord is modelled for ASCII',
         'accounts are numbered in import order; DB, queue, bip39/bip32, signatures are not modelled: the harness recognises a returned key / seed / '
-        'a valid signature of the stored key and reports RSecret',
+        'a valid signature of the stored key and reports RSecret (for a transaction group: every signature present is valid and made with that key); '
+        'the form of a ReqSignRawTx that names the key by address (single tx / Fee+NewToAddr+Expire / group Index 0 / group Index 1) is chosen by the '
+        'harness and is not part of the model request KSign',
         'correspondence for interleavings is checked where the harness can force the schedule (holds at DB operations, one waiting request) and, '
         'for the spinning observer, as "every value seen during a call is a value the model can show during that call"; free-running races between '
         'two adjacent atomic instructions (ProcWalletLock against the flag test of ProcWalletSetPasswd) cannot be forced from outside; for them the harness '
@@ -51,7 +59,7 @@ SPEC = {
     'assumptions': [
         'C38_observed_unlocked_implies_unlock_before and C38_secret_implies_unlock_before hold for EVERY schedule of atomic steps, without guards, since '
         'chain33 66be1e2 (ProcWalletSetPasswd no longer clears and restores the lock flag; former findings C38-F1 / C38-F2, reproduced again when the commit is reverted)',
-        'the timed statements (C38_timeout_respected_seq, C38_unlocked_inside_timeout_seq) are about quiescent histories (one request at a time, the timer '
+        'the timed statements (C38_timeout_respected_seq, C38_unlocked_inside_timeout_seq, C38_no_secret_after_timeout, C38_refused_after_timeout) are about quiescent histories (one request at a time, the timer '
         'function running as soon as it is due); Timeout <= 0 is not constrained by the timed oracle (0 = no timeout; the code expires small negative '
         'values at once and turns values below -9223372036 into a ~292-year timeout by int64 wrap-around, as the model does)',
     ],
